@@ -335,7 +335,162 @@ type c18Out struct {
 	Loaded [][]string `json:"loaded"`
 }
 
+// c18tree <opts> <ops> <path> <nfiles> (<relpathhex> <texthex>){nfiles} <ntexts> (<namehex> <texthex>){ntexts}
+//
+//	histories over a TREE of files that is reached through the search path only (the current directory holds nothing):
+//	the files are written below a fresh root, <path> (comma separated, relative to the root, "." = the root itself,
+//	a trailing "+" = "/...": the entry and everything below it) is given to ms.AddPath, then the ops run:
+//	  R<namehex>  ms.Read(name), name being a bare module name: looked up through the search path; a load (verdict)
+//	  M<namehex>  ms.GetModule(name) offered as a load: verdict "errload" when it failed and the module is not in the
+//	              set (the Read inside failed), "errrun" when it failed otherwise, "ok"
+//	  L<i>        ms.Parse(text i); P, G<namehex>, T, C as in c18proc.
+//	Output: c18Out plus "paths" (ms.Path after every run) and "after" (the sources of the set after every load);
+//	the root is cut off everywhere.
+func runC18Tree(toks []string) string {
+	opts, ops, pathSpec := toks[0], toks[1], toks[2]
+	nf, _ := strconv.Atoi(toks[3])
+	root, err := os.MkdirTemp("", "c18tree")
+	if err != nil {
+		return "BROKEN tempdir: " + err.Error()
+	}
+	defer os.RemoveAll(root)
+	for i := 0; i < nf; i++ {
+		rel := string(unhex(toks[4+2*i]))
+		file := filepath.Join(root, filepath.FromSlash(rel))
+		if err := os.MkdirAll(filepath.Dir(file), 0o755); err != nil {
+			return "BROKEN mkdir: " + err.Error()
+		}
+		if err := os.WriteFile(file, unhex(toks[5+2*i]), 0o644); err != nil {
+			return "BROKEN write: " + err.Error()
+		}
+	}
+	rest := toks[4+2*nf:]
+	n, _ := strconv.Atoi(rest[0])
+	names := make([]string, n)
+	texts := make([]string, n)
+	for i := 0; i < n; i++ {
+		names[i] = string(unhex(rest[1+2*i]))
+		texts[i] = string(unhex(rest[2+2*i]))
+	}
+	ms := yang.NewModules()
+	ms.ParseOptions.StoreUses = strings.Contains(opts, "u")
+	if pathSpec != "-" {
+		for _, p := range strings.Split(pathSpec, ",") {
+			dots := strings.HasSuffix(p, "+")
+			p = strings.TrimSuffix(p, "+")
+			d := root
+			if p != "." {
+				d = filepath.Join(root, filepath.FromSlash(p))
+			}
+			if dots {
+				d = filepath.Join(d, "...")
+			}
+			ms.AddPath(d)
+		}
+	}
+	out := &c18TreeOut{Loads: []string{}, Runs: []*runDump{}, Loaded: [][]string{}, Paths: [][]string{}, After: [][]string{}}
+	sources := func() []string {
+		l := []string{}
+		for _, m := range ms.Modules {
+			l = append(l, yang.Source(m))
+		}
+		for _, m := range ms.SubModules {
+			l = append(l, yang.Source(m))
+		}
+		sort.Strings(l)
+		return l
+	}
+	verdict := func(err error) {
+		if err != nil {
+			out.Loads = append(out.Loads, "err: "+strings.SplitN(err.Error(), "\n", 2)[0])
+		} else {
+			out.Loads = append(out.Loads, "ok")
+		}
+		out.After = append(out.After, sources())
+	}
+	record := func(run *runDump, errs []error) {
+		for _, e := range errs {
+			s := e.Error()
+			run.Errors = append(run.Errors, s)
+			if m := posRE.FindStringSubmatch(s); m != nil {
+				run.ErrPos = append(run.ErrPos, m[1]+":"+m[2]+":"+m[3])
+			} else {
+				run.ErrPos = append(run.ErrPos, "")
+			}
+		}
+		out.Runs = append(out.Runs, run)
+		out.Loaded = append(out.Loaded, sources())
+		out.Paths = append(out.Paths, append([]string{}, ms.Path...))
+	}
+	for _, op := range strings.Split(ops, ",") {
+		switch {
+		case op == "P":
+			run := &runDump{Errors: []string{}, ErrPos: []string{}, TreeViol: []string{}, FindViol: []string{}}
+			errs := ms.Process()
+			if len(errs) == 0 {
+				dumpModules(ms, run, strings.Contains(opts, "f"))
+			}
+			record(run, errs)
+		case strings.HasPrefix(op, "G"):
+			run := &runDump{Errors: []string{}, ErrPos: []string{}, TreeViol: []string{}, FindViol: []string{}}
+			e, errs := ms.GetModule(string(unhex(op[1:])))
+			if len(errs) == 0 {
+				if e == nil {
+					run.TreeViol = append(run.TreeViol, "GetModule returned neither an entry nor an error")
+				}
+				dumpModules(ms, run, strings.Contains(opts, "f"))
+			}
+			record(run, errs)
+		case op == "T":
+			for _, mm := range []map[string]*yang.Module{ms.Modules, ms.SubModules} {
+				var keys []string
+				for k := range mm {
+					keys = append(keys, k)
+				}
+				sort.Strings(keys)
+				for _, k := range keys {
+					c18read(mm[k])
+				}
+			}
+		case op == "C":
+			ms.ClearEntryCache()
+		case strings.HasPrefix(op, "R"):
+			verdict(ms.Read(string(unhex(op[1:]))))
+		case strings.HasPrefix(op, "M"):
+			name := string(unhex(op[1:]))
+			_, errs := ms.GetModule(name)
+			switch {
+			case len(errs) == 0:
+				out.Loads = append(out.Loads, "ok")
+			case ms.Modules[name] == nil:
+				out.Loads = append(out.Loads, "errload: "+strings.SplitN(errs[0].Error(), "\n", 2)[0])
+			default:
+				out.Loads = append(out.Loads, "errrun")
+			}
+			out.After = append(out.After, sources())
+		case strings.HasPrefix(op, "L"):
+			i, _ := strconv.Atoi(op[1:])
+			verdict(ms.Parse(texts[i], names[i]))
+		}
+	}
+	b, err := json.Marshal(out)
+	if err != nil {
+		return "BROKEN json: " + err.Error()
+	}
+	js := strings.ReplaceAll(string(b), root+string(filepath.Separator), "")
+	return strings.ReplaceAll(js, root, ".")
+}
+
+type c18TreeOut struct {
+	Loads  []string   `json:"loads"`
+	Runs   []*runDump `json:"runs"`
+	Loaded [][]string `json:"loaded"`
+	Paths  [][]string `json:"paths"`
+	After  [][]string `json:"after"`
+}
+
 func init() {
 	handlers["c18hist"] = runC18Hist
 	handlers["c18proc"] = runC18Proc
+	handlers["c18tree"] = runC18Tree
 }
